@@ -53,6 +53,11 @@ TYPED = (
     # floats whose repr uses an exponent (tiny / huge), many digits
     "GEO:0.00001234;103.819836", "GEO:-0.00000001;0.0", "GEO:37.386013123456;-122.082932987654", "GEO:-0.0;90.0",
     # every spelling of a duration the grammar allows: week form, explicit plus, zero parts
+    # a TZID that names UTC (or an alias of it) on a local-form value: the writer may add Z, the reader must still take its own output
+    "DTSTART;TZID=UTC:20240102T120000", "DUE;TZID=UTC:20240102T120000", "RDATE;TZID=UTC:20240102T120000,20240103T120000",
+    "EXDATE;TZID=Etc/UTC:20240102T120000", "DTSTART;TZID=GMT:20240102T120000", "DTEND;TZID=/UTC:20240102T120000",
+    "RDATE;VALUE=PERIOD;TZID=UTC:20240102T120000/PT1H", "RECURRENCE-ID;TZID=Zulu:20240102T120000", "DTSTART;TZID=Etc/GMT+5:20240102T120000",
+    "DTSTART;TZID=Africa/Abidjan:20240102T120000", "EXDATE;TZID=UTC:20240102T120000",
     "TRIGGER:-P1W", "DURATION:P2W", "TRIGGER:+PT15M", "TRIGGER;RELATED=END:+P1DT2H", "DURATION:PT0S", "TRIGGER:-PT0H0M0S", "DURATION:P1DT0H0M0S",
 )
 MENU40 = (
